@@ -138,6 +138,10 @@ def perturbations(region, prng):
             val = v.value
             nv = np.nextafter(val, np.inf) if val != 0 else 1e-300
             yield name + ' 1ulp', rebuild(**{name: type(v)(nv, v.unit)})
+            if val != 0:
+                # the same quantity in another unit AND changed by 1e-7 relative (far above conversion rounding, far below 1e-5)
+                other = {u.deg: u.arcmin, u.arcmin: u.arcsec, u.arcsec: u.deg, u.rad: u.deg}.get(v.unit, u.deg)
+                yield name + ' other-unit+1e-7', rebuild(**{name: u.Quantity(v.to_value(other) * (1 + 1e-7), other)})
         else:
             yield name + ' 1ulp', rebuild(**{name: float(np.nextafter(float(v), np.inf))})
     # meta / visual: every key changed, one key removed, one key added
